@@ -58,6 +58,28 @@ class Program:
             self.classes_by_id[self.class_ids[c]] = c
         return self.class_ids[c]
 
+    def fields_assigned(self, cls):
+        """Names X of every `self.X = ...` / `self.X[...] = ...` store in a method of `cls` or of a base class of the program
+        (read from the tree under check): the fields an instance built by the real code can have."""
+        cache = self.__dict__.setdefault("_fields", {})
+        if cls not in cache:
+            out = set()
+            for k in cls.__mro__:
+                if not self.is_ours(k):
+                    continue
+                for v in vars(k).values():
+                    f = v.fget if isinstance(v, property) else getattr(v, "__func__", v)
+                    node = self.node_of(f) if inspect.isfunction(f) else None
+                    if node is None or not node.args.args:
+                        continue
+                    me = node.args.args[0].arg
+                    for n in ast.walk(node):
+                        if isinstance(n, ast.Attribute) and isinstance(n.ctx, ast.Store) and isinstance(n.value, ast.Name) \
+                                and n.value.id == me:
+                            out.add(n.attr)
+            cache[cls] = out
+        return cache[cls]
+
     def is_ours(self, obj):
         mod = getattr(obj, "__module__", None)
         return isinstance(mod, str) and mod in self.modules
